@@ -4,7 +4,7 @@ from collections import Counter
 from datetime import timedelta
 
 from ..backends import BACKENDS, Store
-from ..gen import canon, dt_us, floor_ms, mk_event, rand_grid, td_us
+from ..gen import canon, dt_us, floor_ms, maybe_zone, mk_event, rand_grid, td_us
 from ..model import ref_heartbeat_merge, ref_reduce
 from ._st import dump_store, obs
 from ._tx import tmod
@@ -40,6 +40,7 @@ def gen_case(rng, ctx):
     base, unit = rand_grid(rng)
     if unit > 10**6:
         unit = 10**6
+    base, unit, zone = maybe_zone(rng, base, unit, 0.04)
     pu = rng.choice([0, 1000, 1500, unit, 2 * unit, 5 * unit, 60 * 10**6, 10**9])
     n = rng.randrange(1, 41)
     marathon = rng.random() < 0.08
@@ -101,6 +102,10 @@ def gen_case(rng, ctx):
         late = [dict(after=rng.randrange(0, n), ev=other_event(100 + k)) for k in range(rng.randrange(0, 4))]
         others.append(dict(when=rng.choice(["before", "after"]), evs=evs, late=late))
     # the watcher's bucket may be deleted and re-created mid-stream (the watcher simply carries on)
+    if zone:
+        for s_ in stream:
+            if rng.random() < 0.7:
+                s_["zone"] = zone
     recreate_at = rng.randrange(1, n) if n > 1 and rng.random() < 0.25 else None
     return dict(backend=backend, stream=stream, pulse_us=pu, others=others, recreate_at=recreate_at)
 
